@@ -892,15 +892,11 @@ func (m *c02Model) passesListed(call *ast.CallExpr, rs *ast.RangeStmt, list type
 		return false
 	}
 	a := ast.Unparen(call.Args[0])
-	if rs.Value != nil {
-		if vo := kit.ObjOf(m.info, rs.Value); vo != nil && kit.ObjOf(m.info, a) == vo {
-			return true
-		}
+	if kit.LoopElem(m.info, rs, a) {
+		return true
 	}
-	if ix, ok := a.(*ast.IndexExpr); ok && rs.Key != nil {
-		if ko := kit.ObjOf(m.info, rs.Key); ko != nil && kit.ObjOf(m.info, ix.Index) == ko && kit.ObjOf(m.info, ix.X) == list {
-			return true
-		}
+	if o := kit.ObjOf(m.info, a); o != nil && kit.ElemAliases(m.info, rs)[o] {
+		return true
 	}
 	return false
 }
@@ -911,9 +907,10 @@ func (m *c02Model) checkTransfers(r3 *kit.Rule) {
 		m.c.Analysed(f)
 		t.dest = m.connSide(t.send.Args[0])
 		o := r3.Ob(f, t.send, "child listing of a transferred node", "the children of the node being sent are listed on the instance the node comes from, not on the one it is sent to")
-		rs, _ := f.Enclosing(t.selfCall, func(n ast.Node) bool { _, ok := n.(*ast.RangeStmt); return ok }).(*ast.RangeStmt)
+		// range loop or canonical counting loop over the listing
+		rs := f.EnclosingLoop(t.selfCall)
 		if rs == nil {
-			o.Undecided("the recursive call is not inside a range loop")
+			o.Undecided("the recursive call is not inside a loop over a slice")
 			continue
 		}
 		lv := kit.ObjOf(m.info, rs.X)
